@@ -43,6 +43,14 @@ elif mode == 'compile':
     except Exception:
         pass
     print(time.time() - t)
+elif mode == 'custom':
+    pat, cm = subject
+    t = time.time()
+    try:
+        soupsieve.compile(pat, custom=cm)
+    except Exception:
+        pass
+    print(time.time() - t)
 else:
     import importlib
     sys.path.insert(0, sys.argv[5])
@@ -256,7 +264,43 @@ def run(tier, seed):
             ck.violation(f'compile({pre!r} + {w!r}*n) takes {ts} s for n = 12, 24, 48',
                          {'prefix': pre, 'pump': w, 'seconds_for_n_12_24_48': [t if t != float("inf") else 'timeout>20s' for t in ts],
                           'replay': f'soupsieve.compile({pre!r} + {w!r} * 48)'})
-    ck.notes['compile_families'] = len(fams)
+    # custom alias maps whose definitions refer to each other: compile time must stay polynomial in the size of the map
+    def fib(n):
+        cm = {f':--c{i}': f':is(:--c{i + 1}, :--c{i + 2})' for i in range(n)}
+        cm[f':--c{n}'], cm[f':--c{n + 1}'] = 'a', 'b'
+        return ':--c0', cm
+
+    def diamond(n):
+        cm = {f':--c{i}': f':--c{i + 1} > p, div :--c{i + 1}' for i in range(n)}
+        cm[f':--c{n}'] = 'a'
+        return ':--c0', cm
+
+    def linear(n):
+        cm = {f':--c{i}': f':--c{i + 1} > p' for i in range(n)}
+        cm[f':--c{n}'] = 'a'
+        return ':--c0, :--c1', cm
+
+    def wide(n):
+        cm = {f':--c{i}': f'p.k{i}' for i in range(n * 4)}
+        return ', '.join(cm), cm
+
+    def reuse(n):
+        return ':--a' * n + ', ' + ', '.join([':--b:--a'] * n), {':--a': ':is(p, :--b)', ':--b': 'div > span'}
+    for fname, mk_ in (('fibonacci', fib), ('diamond', diamond), ('linear', linear), ('wide', wide), ('reuse', reuse)):
+        ts = []
+        for n in (8, 16, 24):
+            t = timed([build.PY, timer, build.REPO, '-', json.dumps(mk_(n)), 'custom'], 20)
+            ts.append(t)
+            if t is None or t == float('inf'):
+                break
+        ck.count(('custom-family', fname))
+        bad = any(t == float('inf') for t in ts if t is not None) or (len(ts) == 3 and ts[2] and ts[1] and ts[2] > 2.0 and ts[2] > 8 * max(ts[1], 0.01))
+        if bad:
+            pat_, cm_ = mk_(24)
+            ck.violation(f'compile with the {fname} custom map of n aliases takes {ts} s for n = 8, 16, 24',
+                         {'family': fname, 'seconds_for_n_8_16_24': [t if t != float("inf") else 'timeout>20s' for t in ts],
+                          'pattern': pat_, 'custom': cm_, 'replay': 'soupsieve.compile(pattern, custom=custom)'})
+    ck.notes['compile_families'] = len(fams) + 5
     import shutil
     shutil.rmtree(tdir, ignore_errors=True)
     return ck.finish(
